@@ -103,6 +103,14 @@ m("c14-logger-reserve-steps", "emulator/system.go", "\t\treserver.Reserve(40 * n
 m("c14-abs-long-order", "emulator/cpualt/cpu_disassembler.go", "\t\tn, _ = fmt.Fprintf(w, \"$%02x%02x%02x\", w3, w2, w1)\n\tcase m_Absolute_Long_X:", "\t\tn, _ = fmt.Fprintf(w, \"$%02x%02x%02x\", w3, w1, w2)\n\tcase m_Absolute_Long_X:", ["C14"])
 m("c14-rel16-base", "emulator/cpu65c816/cpu_disassembler.go", "\t\taddr := c.PC + 3 + arg16", "\t\taddr := c.PC + 2 + arg16", ["C14"])
 
+# ---- C18
+m("c18-shared-scratch-disasm", "emulator/cpu65c816/cpu_disassembler.go", "func (c *CPU) DisassembleTo(myPC uint16, o []byte) []byte {\n\txb := xbuf.B(o)", "var sharedScratch [256]byte\n\nfunc (c *CPU) DisassembleTo(myPC uint16, o []byte) []byte {\n\txb := xbuf.B(sharedScratch[:0])\n\tdefer func() { o = append(o[:0], xb...) }()", ["C18"])
+m("c18-memoised-size", "emulator/cpu65c816/cpu.go", "\tcpu.stepPC = uint16(instructions[opcode].size)\n", "\tcpu.stepPC = uint16(instructions[opcode].size)\n\tinstructions[opcode].opcode = opcode // memoise\n", ["C18"])
+m("c18-shared-builder-emitbytes", "asm/emitter.go", "func (a *Emitter) EmitBytes(b []byte) {\n\tif a.generateText {\n\t\ta.emitBase()\n\t\ts := strings.Builder{}", "var dbBuilder strings.Builder\n\nfunc (a *Emitter) EmitBytes(b []byte) {\n\tif a.generateText {\n\t\ta.emitBase()\n\t\ts := &dbBuilder\n\t\ts.Reset()", ["C18"])
+m("c18-region-cache-write", "header.go", "\tif h.OldMakerCode == 0x33 {\n\t\th.version = 3", "\tif _, ok := RegionNames[h.DestinationCode]; !ok {\n\t\tRegionNames[h.DestinationCode] = \"Unknown\"\n\t}\n\tif h.OldMakerCode == 0x33 {\n\t\th.version = 3", ["C18"])
+m("c18-last-mapped-global", "mapping/util/mapping.go", "func BankToLinear(addr uint32) uint32 {\n\tbank := addr >> 16", "var LastBank uint32\n\nfunc BankToLinear(addr uint32) uint32 {\n\tbank := addr >> 16\n\tLastBank = bank", ["C18"])
+m("c18-alwayserror-counts", "rom.go", "func (alwaysError) Read(p []byte) (int, error) {\n\treturn 0, io.ErrUnexpectedEOF", "var alwaysErrorCalls int\n\nfunc (alwaysError) Read(p []byte) (int, error) {\n\talwaysErrorCalls++\n\treturn 0, io.ErrUnexpectedEOF", ["C18"])
+
 def sh(cmd, **kw):
     return subprocess.run(cmd, shell=True, text=True, capture_output=True, **kw)
 
